@@ -454,6 +454,9 @@ func (p *Printer) flushHeredocs() {
 	if len(coms) > 0 {
 		c := coms[0]
 		if c.Pos().Line() == p.line {
+			// Keep the comment on this line: a newline here would move it
+			// into the heredoc body.
+			p.mustNewline = false
 			p.pendingComments = append(p.pendingComments, c)
 			p.flushComments()
 			coms = coms[1:]
